@@ -135,43 +135,79 @@ theorem tokenSpacing_eq (ft : FT) :
     tokenSpacing ft = ft.zipIdx.map fun p =>
       { p.1 with fmt := { p.1.fmt with sp := (spacingResult (spacingItems ft)).getD p.2 p.1.fmt.sp } } := rfl
 
-/-- after `TokenSpacing` the two layouts agree in everything but leading whitespace, indentation counters and the
-    line-break counter within its class -/
-theorem tokenSpacing_pw (ft ft' : FT) (h : Pw (fun _ => SL) ft ft') (hg : GapEqW false ft ft')
-    (hni : noInlineLine (spacingItems ft)) :
-    Pw (fun _ => LR) (tokenSpacing ft) (tokenSpacing ft') := by
-  have hres := spacingResult_gapEqW ft ft' hg hni
-  rw [tokenSpacing_eq, tokenSpacing_eq, ← hres]
+theorem spacingItemsGo_getElem? (po : Bool) (ft : FT) (j : Nat) :
+    ((spacingItemsGo po ft)[j]?).map (·.1) = (ft[j]?).map (·.tok.kind) := by
+  induction ft generalizing po j with
+  | nil => simp [spacingItemsGo]
+  | cons t r ih =>
+    unfold spacingItemsGo
+    cases j with
+    | zero => simp
+    | succ j => simpa using ih _ j
+
+/-- after `TokenSpacing` the two layouts agree in everything but leading whitespace, indentation counters, the
+    line-break counter within its class - and the spaces at free positions -/
+theorem tokenSpacing_pw (ft ft' : FT) (h : Pw (fun _ => SL) ft ft') (hg : GapEqW false ft ft') :
+    Pw (fun j => LR (freeAtB ft j = true)) (tokenSpacing ft) (tokenSpacing ft') := by
+  have hx : EqX none (spacingItems ft) (spacingResult (spacingItems ft)) (spacingResult (spacingItems ft')) :=
+    spacingResult_layoutW3 _ _ (spacingItemsGo_layoutW2 false ft ft' hg)
+  obtain ⟨l1, l2, hget⟩ := EqX.get none _ _ _ hx
+  have hil : (spacingItems ft).length = ft.length := by unfold spacingItems; rw [spacingItemsGo_length]
+  rw [tokenSpacing_eq, tokenSpacing_eq]
   apply h.zipIdx_map
   intro j a b hj sl
-  have hlen : j < (spacingResult (spacingItems ft)).length := by
-    rw [spacingResult_length]; unfold spacingItems; rw [spacingItemsGo_length]; exact hj
-  have hg : ∀ d, (spacingResult (spacingItems ft)).getD j d = (spacingResult (spacingItems ft))[j] := by
-    intro d; rw [List.getD_eq_getElem?_getD, List.getElem?_eq_getElem hlen]; rfl
-  refine ⟨sl.kind, sl.content, sl.ign, ?_, sl.blank, ?_⟩
-  · show (spacingResult (spacingItems ft)).getD j a.fmt.sp = (spacingResult (spacingItems ft)).getD j b.fmt.sp
-    rw [hg, hg]
-  · intro hi
-    have := sl.ignEq hi; subst this; rfl
+  have hlen1 : j < (spacingResult (spacingItems ft)).length := by rw [l1, hil]; exact hj
+  have hlen2 : j < (spacingResult (spacingItems ft')).length := by rw [l2, hil]; exact hj
+  have hg1 : ∀ d, (spacingResult (spacingItems ft)).getD j d = (spacingResult (spacingItems ft))[j] := by
+    intro d; rw [List.getD_eq_getElem?_getD, List.getElem?_eq_getElem hlen1]; rfl
+  have hg2 : ∀ d, (spacingResult (spacingItems ft')).getD j d = (spacingResult (spacingItems ft'))[j] := by
+    intro d; rw [List.getD_eq_getElem?_getD, List.getElem?_eq_getElem hlen2]; rfl
+  have hjl : j < (spacingItems ft).length := by rw [hil]; exact hj
+  have hcase := hget j _ _ _ (List.getElem?_eq_getElem hlen1) (List.getElem?_eq_getElem hlen2) (List.getElem?_eq_getElem hjl)
+  have hsp : freeAtB ft j = true ∨
+      (spacingResult (spacingItems ft)).getD j a.fmt.sp = (spacingResult (spacingItems ft')).getD j b.fmt.sp := by
+    rw [hg1, hg2]
+    rcases hcase with ⟨hp, hk⟩ | he
+    · left
+      -- translate the condition on the spacing items into the condition on the tokens
+      have hkj : ((spacingItems ft)[j]?).map (·.1) = (ft[j]?).map (·.tok.kind) := spacingItemsGo_getElem? false ft j
+      rw [List.getElem?_eq_getElem hjl] at hkj
+      have hja : ∃ t, ft[j]? = some t := ⟨ft[j], List.getElem?_eq_getElem hj⟩
+      obtain ⟨t, ht⟩ := hja
+      rw [ht] at hkj
+      simp only [Option.map_some, Option.some.injEq] at hkj
+      unfold freeAtB
+      by_cases hj0 : j = 0
+      · subst hj0; simp at hp
+      · simp only [hj0, if_false] at hp
+        have hprev : ((spacingItems ft)[j - 1]?).map (·.1) = (ft[j - 1]?).map (·.tok.kind) := spacingItemsGo_getElem? false ft (j - 1)
+        rw [hp] at hprev
+        have hj1 : j ≥ 1 := by omega
+        simp [hj1, ← hprev, ht, ← hkj, hk]
+    · right; exact he
+  refine ⟨sl.kind, sl.content, sl.ign, hsp, sl.blank, ?_⟩
+  intro hi
+  have := sl.ignEq hi; subst this
+  exact ⟨rfl, ⟨rfl, rfl, rfl, rfl, hsp⟩⟩
 
-theorem setContent_LR' {t t' : FTok} (lr : LR t t') (c : Bytes) : LR (t.setContent c) (t'.setContent c) := by
+theorem setContent_LR' {fr : Prop} {t t' : FTok} (lr : LR fr t t') (c : Bytes) : LR fr (t.setContent c) (t'.setContent c) := by
   unfold FTok.setContent
   by_cases hi : t.fmt.ignored = true
-  · have := lr.ignEq hi; subst this
-    rw [if_pos hi]; exact LR.refl _
+  · have hi' : t'.fmt.ignored = true := by rw [← lr.ign]; exact hi
+    rw [if_pos hi, if_pos hi']; exact lr
   · have hi' : ¬ t'.fmt.ignored = true := by rw [← lr.ign]; exact hi
     rw [if_neg hi, if_neg hi']
     exact ⟨lr.kind, rfl, lr.ign, lr.sp, lr.nl, fun h => absurd h hi⟩
 
-theorem lowercaseTok_LR {t t' : FTok} (lr : LR t t') : LR (lowercaseTok t) (lowercaseTok t') := by
+theorem lowercaseTok_LR {fr : Prop} {t t' : FTok} (lr : LR fr t t') : LR fr (lowercaseTok t) (lowercaseTok t') := by
   unfold lowercaseTok
   rw [← lr.kind, ← lr.content]
   split
   · exact setContent_LR' lr _
   · exact lr
 
-theorem commentFormatTok_LR (alnum : Bytes → Bool) {t t' : FTok} (lr : LR t t') :
-    LR (commentFormatTok alnum t) (commentFormatTok alnum t') := by
+theorem commentFormatTok_LR (alnum : Bytes → Bool) {fr : Prop} {t t' : FTok} (lr : LR fr t t') :
+    LR fr (commentFormatTok alnum t) (commentFormatTok alnum t') := by
   unfold commentFormatTok
   rw [← lr.kind, ← lr.content]
   split
@@ -193,9 +229,10 @@ theorem commentFormatTok_LR (alnum : Bytes → Bool) {t t' : FTok} (lr : LR t t'
 def eofWritten (lines : List Line) (n : Nat) (kinds : List Kind) (j : Nat) : Bool :=
   lines.any (fun l => l.ltype == .lEof) && (j + 1 == n && kinds[j]? == some .tEof)
 
-theorem eofNewline_pw (lines : List Line) (ft ft' : FT) (h : Pw (fun _ => LR) ft ft') :
-    Pw (fun j t t' => LR t t' ∧
-        ((lines.any (fun l => l.ltype == .lEof) && (j + 1 == ft.length && t.tok.kind == .tEof)) = true → t.fmt = t'.fmt))
+theorem eofNewline_pw (F : Nat → Prop) (lines : List Line) (ft ft' : FT) (h : Pw (fun j => LR (F j)) ft ft') :
+    Pw (fun j t t' => LR (F j) t t' ∧
+        ((lines.any (fun l => l.ltype == .lEof) && (j + 1 == ft.length && t.tok.kind == .tEof)) = true →
+          FmtEq (F j) t.fmt t'.fmt))
       (eofNewline lines ft) (eofNewline lines ft') := by
   unfold eofNewline
   by_cases ha : lines.any (fun l => l.ltype == .lEof) = true
@@ -206,13 +243,11 @@ theorem eofNewline_pw (lines : List Line) (ft ft' : FT) (h : Pw (fun _ => LR) ft
     rw [← lr.kind]
     by_cases hc : (j + 1 == ft.length && a.tok.kind == .tEof) = true
     · rw [if_pos hc, if_pos hc]
-      have hf : ({ a.fmt with nl := 1, sp := 0, ind := 0, cont := 0 } : FmtData) = { b.fmt with nl := 1, sp := 0, ind := 0, cont := 0 } := by
-        have := lr.ign
-        cases ha : a.fmt; cases hb : b.fmt
-        simp_all
-      refine ⟨⟨lr.kind, lr.content, lr.ign, rfl, rfl, ?_⟩, fun _ => hf⟩
+      have hf : FmtEq (F j) ({ a.fmt with nl := 1, sp := 0, ind := 0, cont := 0 } : FmtData) { b.fmt with nl := 1, sp := 0, ind := 0, cont := 0 } :=
+        ⟨lr.ign, rfl, rfl, rfl, Or.inr rfl⟩
+      refine ⟨⟨lr.kind, lr.content, lr.ign, Or.inr rfl, rfl, ?_⟩, fun _ => hf⟩
       intro hi
-      have := lr.ignEq hi; subst this; rfl
+      exact ⟨(lr.ignEq hi).1, hf⟩
     · rw [if_neg hc, if_neg hc]
       refine ⟨lr, fun hw => ?_⟩
       rw [ha] at hw
@@ -308,12 +343,84 @@ theorem sameLayout_pw {kinds : List Kind} {marks : List Bool} {raw1 raw2 : List 
     unfold preTok
     rw [hws hm, hc, hk]
 
+/-! ### the token rules keep every token's type -/
+
+theorem setContent_kind (t : FTok) (c : Bytes) : (t.setContent c).tok.kind = t.tok.kind := by
+  unfold FTok.setContent; split <;> rfl
+
+theorem lowercaseTok_kind (t : FTok) : (lowercaseTok t).tok.kind = t.tok.kind := by
+  unfold lowercaseTok; split
+  · exact setContent_kind _ _
+  · rfl
+
+theorem commentFormatTok_kind (alnum : Bytes → Bool) (t : FTok) : (commentFormatTok alnum t).tok.kind = t.tok.kind := by
+  unfold commentFormatTok
+  split <;> (try (split <;> first | exact setContent_kind _ _ | rfl)) <;> rfl
+
+theorem preRules_kinds (alnum : Bytes → Bool) (lines : List Line) (ft : FT) :
+    (eofNewline lines (commentFormatter alnum (lowercaseKeywords (tokenSpacing ft)))).map (·.tok.kind) =
+      ft.map (·.tok.kind) := by
+  have e1 : (tokenSpacing ft).map (·.tok.kind) = ft.map (·.tok.kind) := by
+    rw [tokenSpacing_eq]
+    apply List.ext_getElem?
+    intro j
+    simp only [List.getElem?_map, List.getElem?_zipIdx]
+    cases ft[j]? <;> rfl
+  have e2 : ∀ x : FT, (lowercaseKeywords x).map (·.tok.kind) = x.map (·.tok.kind) := by
+    intro x; unfold lowercaseKeywords
+    rw [List.map_map]; exact List.map_congr_left (fun t _ => lowercaseTok_kind t)
+  have e3 : ∀ x : FT, (commentFormatter alnum x).map (·.tok.kind) = x.map (·.tok.kind) := by
+    intro x; unfold commentFormatter
+    rw [List.map_map]; exact List.map_congr_left (fun t _ => commentFormatTok_kind alnum t)
+  have e4 : ∀ x : FT, (eofNewline lines x).map (·.tok.kind) = x.map (·.tok.kind) := by
+    intro x; unfold eofNewline
+    split
+    · apply List.ext_getElem?
+      intro j
+      simp only [List.getElem?_map, List.getElem?_zipIdx]
+      cases x[j]? with
+      | none => rfl
+      | some t => simp only [Option.map_some]; split <;> rfl
+    · rfl
+  rw [e4, e3, e2, e1]
+
+theorem freeAtB_congr (ft ft' : FT) (h : ft.map (fun t => t.tok.kind) = ft'.map (fun t => t.tok.kind)) (j : Nat) :
+    freeAtB ft j = freeAtB ft' j := by
+  have hk : ∀ i : Nat, (ft[i]?).map (fun t => t.tok.kind) = (ft'[i]?).map (fun t => t.tok.kind) := by
+    intro i
+    have := congrArg (fun l => l[i]?) h
+    simpa [List.getElem?_map] using this
+  unfold freeAtB
+  rw [hk (j - 1)]
+  have := hk j
+  cases h1 : ft[j]? with
+  | none =>
+    rw [h1] at this
+    cases h2 : ft'[j]? with
+    | none => rfl
+    | some y => rw [h2] at this; simp at this
+  | some x =>
+    rw [h1] at this
+    cases h2 : ft'[j]? with
+    | none => rw [h2] at this; simp at this
+    | some y =>
+      rw [h2] at this
+      simp only [Option.map_some, Option.some.injEq] at this
+      simp only [this]
+
+theorem freeOk_freeAtB (ft : FT) : FreeOk (fun j => freeAtB ft j = true) ft := by
+  intro j t ht hf
+  unfold freeAtB at hf
+  rw [ht] at hf
+  simp only [Bool.and_eq_true, decide_eq_true_eq, beq_iff_eq] at hf
+  exact ⟨hf.1.1, hf.1.2, hf.2⟩
+
 theorem preWrap_layout (alnum : Bytes → Bool) (po : ParserOut) (raw1 raw2 : List RawTok)
-    (h : SameLayout po.kinds (preWrap (preO alnum po) raw1).1 raw1 raw2)
-    (hni : ∀ t ∈ retype raw1 po.kinds, t.kind ≠ .tComment .cInlineLine) :
+    (h : SameLayout po.kinds (preWrap (preO alnum po) raw1).1 raw1 raw2) :
     (preWrap (preO alnum po) raw2).1 = (preWrap (preO alnum po) raw1).1 ∧
     (preWrap (preO alnum po) raw2).2.1 = (preWrap (preO alnum po) raw1).2.1 ∧
-    RelW (fun j => writtenBefore (preWrap (preO alnum po) raw1).2.1 (preWrap (preO alnum po) raw1).2.2 j = true)
+    RelW (fun j => freeAtB (preWrap (preO alnum po) raw1).2.2 j = true)
+      (fun j => writtenBefore (preWrap (preO alnum po) raw1).2.1 (preWrap (preO alnum po) raw1).2.2 j = true)
       (preWrap (preO alnum po) raw1).2.2 (preWrap (preO alnum po) raw2).2.2 := by
   have hm : ignoredMarks (retype raw2 po.kinds) po.lines = ignoredMarks (retype raw1 po.kinds) po.lines :=
     (ignoredMarks_layout raw1 raw2 po.kinds po.lines h.kc).symm
@@ -325,54 +432,36 @@ theorem preWrap_layout (alnum : Bytes → Bool) (po : ParserOut) (raw1 raw2 : Li
   generalize hlines : voidLines marks po.lines = lines
   rw [ft0_eq, ft0_eq]
   have p0 := sameLayout_pw h
-  have hni' : noInlineLine (spacingItems (raw1.zipIdx.map (fun p => preTok po.kinds marks p.2 p.1))) := by
-    rw [← ft0_eq]
-    intro p hp
-    unfold spacingItems at hp
-    have : ∀ (po' : Bool) (ft : FT), ∀ q ∈ spacingItemsGo po' ft, ∃ t ∈ ft, q.1 = t.tok.kind := by
-      intro po' ft
-      induction ft generalizing po' with
-      | nil => intro q hq; simp [spacingItemsGo] at hq
-      | cons t r ih =>
-        intro q hq
-        unfold spacingItemsGo at hq
-        simp only [List.mem_cons] at hq
-        rcases hq with rfl | hq
-        · exact ⟨t, by simp, rfl⟩
-        · obtain ⟨u, hu, e⟩ := ih _ q hq
-          exact ⟨u, by simp [hu], e⟩
-    obtain ⟨t, ht, e⟩ := this _ _ p hp
-    rw [e]
-    unfold FT.new at ht
-    obtain ⟨⟨tk, i⟩, hti, rfl⟩ := List.mem_map.1 ht
-    have : tk ∈ retype raw1 po.kinds := by
-      have := List.mem_zipIdx hti
-      rw [this.2.2]
-      exact List.getElem_mem _
-    exact hni tk this
-  have p1 := tokenSpacing_pw _ _ p0 h.gapw hni'
-  have p2 : Pw (fun _ => LR) (lowercaseKeywords (tokenSpacing (raw1.zipIdx.map (fun p => preTok po.kinds marks p.2 p.1))))
-      (lowercaseKeywords (tokenSpacing (raw2.zipIdx.map (fun p => preTok po.kinds marks p.2 p.1)))) :=
-    p1.map lowercaseTok lowercaseTok (fun _ _ _ _ lr => lowercaseTok_LR lr)
-  have p3 : Pw (fun _ => LR) (commentFormatter alnum (lowercaseKeywords (tokenSpacing (raw1.zipIdx.map (fun p => preTok po.kinds marks p.2 p.1)))))
-      (commentFormatter alnum (lowercaseKeywords (tokenSpacing (raw2.zipIdx.map (fun p => preTok po.kinds marks p.2 p.1))))) :=
-    p2.map _ _ (fun _ _ _ _ lr => commentFormatTok_LR alnum lr)
-  have p4 := eofNewline_pw lines _ _ p3
+  have p1 := tokenSpacing_pw _ _ p0 h.gapw
+  -- the free positions of the state before the stage are those of the state before the rules
+  have hfree : ∀ j, freeAtB (eofNewline lines (commentFormatter alnum (lowercaseKeywords (tokenSpacing
+        (raw1.zipIdx.map (fun p => preTok po.kinds marks p.2 p.1)))))) j =
+      freeAtB (raw1.zipIdx.map (fun p => preTok po.kinds marks p.2 p.1)) j :=
+    fun j => freeAtB_congr _ _ (preRules_kinds alnum lines _) j
+  have p2 := p1.map lowercaseTok lowercaseTok (S := fun j => LR (freeAtB (raw1.zipIdx.map (fun p => preTok po.kinds marks p.2 p.1)) j = true))
+    (fun _ _ _ _ lr => lowercaseTok_LR lr)
+  have p3 := p2.map (commentFormatTok alnum) (commentFormatTok alnum)
+    (S := fun j => LR (freeAtB (raw1.zipIdx.map (fun p => preTok po.kinds marks p.2 p.1)) j = true))
+    (fun _ _ _ _ lr => commentFormatTok_LR alnum lr)
+  have p4 := eofNewline_pw (fun j => freeAtB (raw1.zipIdx.map (fun p => preTok po.kinds marks p.2 p.1)) j = true) lines _ _ p3
   refine ⟨p4.1, ?_⟩
   intro j t t' ht ht'
   obtain ⟨lr, hw⟩ := p4.2 j t t' ht ht'
-  refine ⟨lr, fun w => ?_⟩
-  simp only [writtenBefore, ht, Bool.or_eq_true] at w
-  rcases w with w | w
-  · have := lr.ignEq w; subst this; rfl
-  · apply hw
-    -- the length of the state before the end-of-file rule is the length after it
-    have hl : (eofNewline lines (commentFormatter alnum (lowercaseKeywords (tokenSpacing (raw1.zipIdx.map (fun p => preTok po.kinds marks p.2 p.1)))))).length =
-        (commentFormatter alnum (lowercaseKeywords (tokenSpacing (raw1.zipIdx.map (fun p => preTok po.kinds marks p.2 p.1))))).length := by
-      unfold eofNewline; split <;> simp
-    rw [hl] at w
-    -- the end-of-file rule keeps the kind
-    exact w
+  have hfj := hfree j
+  refine ⟨?_, fun w => ?_⟩
+  · show LR (freeAtB _ j = true) t t'
+    rw [hfj]; exact lr
+  · show FmtEq (freeAtB _ j = true) t.fmt t'.fmt
+    rw [hfj]
+    simp only [writtenBefore, ht, Bool.or_eq_true] at w
+    rcases w with w | w
+    · exact (lr.ignEq w).2
+    · apply hw
+      have hl : (eofNewline lines (commentFormatter alnum (lowercaseKeywords (tokenSpacing (raw1.zipIdx.map (fun p => preTok po.kinds marks p.2 p.1)))))).length =
+          (commentFormatter alnum (lowercaseKeywords (tokenSpacing (raw1.zipIdx.map (fun p => preTok po.kinds marks p.2 p.1))))).length := by
+        unfold eofNewline; split <;> simp
+      rw [hl] at w
+      exact w
 
 /-! ### the whole formatter -/
 
@@ -395,15 +484,22 @@ theorem formatTokensFull_layout (cfg : Config) (alnum : Bytes → Bool) (raw1 ra
     (hflags : maskFlags false (raw1.map fun t => (t.kind, wsHasBreak t.ws)) =
       maskFlags false (raw2.map fun t => (t.kind, wsHasBreak t.ws)))
     (hsame : SameLayout po.kinds (preWrap (preO alnum po) raw1).1 raw1 raw2)
-    (hni : ∀ t ∈ retype raw1 po.kinds, t.kind ≠ .tComment .cInlineLine)
     (hw : wrapStageFull cfg (preWrap (preO alnum po) raw1).2.1 (preWrap (preO alnum po) raw1).2.2 = some (ftz, sols))
     (hall : allWritten (preWrap (preO alnum po) raw1).2.1
       (writtenBefore (preWrap (preO alnum po) raw1).2.1 (preWrap (preO alnum po) raw1).2.2)
-      (preWrap (preO alnum po) raw1).2.2.length sols = true) :
+      (preWrap (preO alnum po) raw1).2.2.length sols = true)
+    (hfb : freeBrokenB (preWrap (preO alnum po) raw1).2.2 ftz = true) :
     formatTokensFull cfg alnum raw1 = some (reconstruct cfg.settings ftz) ∧
     formatTokensFull cfg alnum raw2 = some (reconstruct cfg.settings ftz) := by
-  obtain ⟨_, hlines, hrel⟩ := preWrap_layout alnum po raw1 raw2 hsame hni
-  obtain ⟨ftz', hw', hrt⟩ := wrapStageFull_layout cfg _ _ _ _ ftz sols hrel hw hall
+  obtain ⟨_, hlines, hrel⟩ := preWrap_layout alnum po raw1 raw2 hsame
+  have hfree : ∀ j t, ftz[j]? = some t → freeAtB (preWrap (preO alnum po) raw1).2.2 j = true → t.fmt.nl > 0 := by
+    intro j t ht hf
+    unfold freeBrokenB at hfb
+    rw [List.all_eq_true] at hfb
+    have := hfb (t, j) (List.mem_zipIdx_iff_getElem?.2 ht)
+    simp only [hf, Bool.not_true, Bool.false_or, decide_eq_true_eq] at this
+    exact this
+  obtain ⟨ftz', hw', hrt⟩ := wrapStageFull_layout cfg _ _ _ _ _ ftz sols hrel (freeOk_freeAtB _) hw hall hfree
   have hrec : reconstruct cfg.settings ftz = reconstruct cfg.settings ftz' := reconGo_relT _ _ _ _ hrt
   constructor
   · unfold formatTokensFull
@@ -469,17 +565,13 @@ theorem formatFull_layout_checked (cfg : Config) (alnum : Bytes → Bool) (s1 s2
     · cases h
     · rename_i po hpo
       simp only [Bool.and_eq_true, beq_iff_eq] at h
-      obtain ⟨⟨⟨hflags, hsame⟩, hni⟩, hw⟩ := h
+      obtain ⟨⟨hflags, hsame⟩, hw⟩ := h
       split at hw
       · cases hw
       · rename_i ftz sols hstage
-        have hni' : ∀ t ∈ retype raw1 po.kinds, t.kind ≠ .tComment .cInlineLine := by
-          intro t ht
-          rw [List.all_eq_true] at hni
-          have := hni t ht
-          simpa using this
+        simp only [Bool.and_eq_true] at hw
         obtain ⟨h1, h2⟩ := formatTokensFull_layout cfg alnum raw1 raw2 po ftz sols hpo hflags
-          (sameLayoutB_sound _ _ _ _ hsame) hni' hstage hw
+          (sameLayoutB_sound _ _ _ _ hsame) hstage hw.1 hw.2
         exact ⟨_, by unfold formatFull; rw [hl1]; exact h1, by unfold formatFull; rw [hl2]; exact h2⟩
   · cases h
 
